@@ -43,6 +43,8 @@ fn table() -> Vec<(&'static str, Options, Option<Value>)> {
         ("12ab", base().with_leading_digit_symbols(true), sy("12ab")), ("12", base().with_leading_digit_symbols(true), Some(Value::from(12))),
         ("1e3", base().with_leading_digit_symbols(true), Some(Value::from(1000.0))), ("15e-1", base().with_leading_digit_symbols(true), Some(Value::from(1.5))),
         ("1e3", base(), Some(Value::from(1000.0))), ("12", base(), Some(Value::from(12))),
+        ("99999999999999999999a", base().with_leading_digit_symbols(true), sy("99999999999999999999a")), ("99999999999999999999a", base(), None), ("123456789012345678901234A", Options::elisp(), sy("123456789012345678901234A")),
+        ("#o77777777777777777777778", base(), None), ("#b11111111111111111111111111111111111111111111111111111111111111111112", base(), None), ("18446744073709551616x", base(), None), ("18446744073709551616", base().with_leading_digit_symbols(true), Some(Value::from(18446744073709551616.0))),
         ("-1a", base().with_leading_digit_symbols(true), None), ("+12ab", base().with_leading_digit_symbols(true), None), ("-1.5.6", Options::elisp(), None), ("-5", base().with_leading_digit_symbols(true), Some(Value::from(-5))),
         ("+1e3", Options::elisp(), Some(Value::from(1000.0))), ("-", base().with_leading_digit_symbols(true), sy("-")), ("+", Options::elisp(), sy("+")),
         ("nil", Options::elisp(), Some(Value::Null)), ("t", Options::elisp(), sy("t")), ("#nil", base(), Some(Value::Nil)), ("()", base().with_nil_symbol(NilSymbol::Special), Some(Value::Null)),
